@@ -30,9 +30,9 @@ CHECKS = {
         "statements; proving the latter refuted the theorem on `f ( ) { } { } ;` and exposed the genuine defect GD27 (a block that abuts a "
         "function body was merged into it), after whose repair the hypothesis 'nothing opens right after the body' was deleted from every "
         "theorem.  Membership in the grammars is DECIDED: executable recognisers (Scope/GrammarParse.v, PyGrammarParse.v) are proved sound "
-        "(C01_recognised_programs, C01_recognised_python_programs) and run inside Coq on the generated programs; more than four fifths are members, "
+        "(C01_recognised_programs, C01_recognised_python_programs) and run inside Coq on the generated programs; more than nine tenths are members, "
         "for which no descriptor-side hypothesis is left.  The brace grammar meanwhile also covers TypeScript return types with parenthesis "
-        "groups, flat brace groups in JavaScript / TypeScript parameter lists, callback statements, Java anonymous classes / C# object initialisers after `new`, bare blocks and `async` before a header (each extension was corrected or "
+        "groups, flat brace groups in JavaScript / TypeScript parameter lists, callback statements, Java anonymous classes / C# object initialisers after `new`, bare blocks, `async` before a header, calls inside initialiser braces and `keyword :` labels (each extension was corrected or "
         "confirmed by its proof attempt; counter-example streams in Scope/GrammarAllProofsCex.v).  NOT proved: what the grammars leave "
         "out (nested brace groups in parameter lists, Python backslash "
         "continuations: hypothesis form and generator only) "
